@@ -45,7 +45,11 @@ ASSUMPTIONS = [
     "a column that is exactly one too large on a line > 1 is classified under the known LinenoColumner bucket and the corrected position is judged further",
 ]
 
-COMMENT_LINES = ["", "", "   ", "# comment", "# -*- coding: utf-8 -*-", "# caf\u00e9 \U0001F600 comment", "\t"]
+COMMENT_LINES = ["", "", "   ", "# comment", "# -*- coding: utf-8 -*-", "# caf\u00e9 \U0001F600 comment", "\t",
+                 # characters that str.splitlines() treats as line boundaries but Python source does not
+                 "# a\u2028b", "# a\u2029b\x0cc", "# a\x85b\x1cc\x1dd\x1ee", "'\u2028 \x0c'",
+                 # decomposed sequences (change under Unicode normalisation)
+                 "# e\u0308 \u1100\u1161"]
 PREPENDED = "# zq prepended \u00e9\n"
 
 
@@ -92,7 +96,7 @@ SNIPS = [
          late=True),
 ]
 SNIPS_BY_NAME = {s.name: s for s in SNIPS}
-PREFIXES = ["", "", "'\u00e9\U0001F600'; ", "'\u20ac\u00e9\u00e9'; "]
+PREFIXES = ["", "", "'\u00e9\U0001F600'; ", "'\u20ac\u00e9\u00e9'; ", "'e\u0308o\u0308'; ", "'\u1100\u1161\u11a8'; ", "'\u2028'; "]
 
 
 # ---------------------------------------------------------------------------
